@@ -271,6 +271,26 @@ def test_strip(rnd):
     return n, bad
 
 
+def test_bytes_strip(rnd):
+    """SymBytes.rstrip/lstrip(chars) on constant-valued proxies against bytes."""
+    n = bad = 0
+    ctx = core.SymCtx()
+    core.CUR = ctx
+    try:
+        for _ in range(150):
+            alphabet = [0, 0, 0x20, 0x41, 0x42, 0xFF]
+            raw = bytes(rnd.choice(alphabet) for _ in range(rnd.randrange(0, 9)))
+            chars = bytes(rnd.sample([0, 0x20, 0x41], rnd.randrange(1, 3)))
+            sym = const_bytes(raw)
+            for meth in ("rstrip", "lstrip"):
+                n += 1
+                if deep_concrete(ctx, getattr(sym, meth)(chars)) != getattr(raw, meth)(chars):
+                    bad += 1
+    finally:
+        core.CUR = None
+    return n, bad
+
+
 def run_all(seed=0, repo_root="/repo"):
     """Returns dict of results; key 'ok' False if any mismatch. Shims must not be installed."""
     rnd = random.Random(seed)
@@ -285,6 +305,7 @@ def run_all(seed=0, repo_root="/repo"):
     res["utf8"] = utf8.selftest(samples=200, seed=seed)
     res["round1"] = test_round1()
     res["strip"] = test_strip(rnd)
+    res["bytes_strip"] = test_bytes_strip(rnd)
     vectors = harvest_vectors(repo_root)
     # plain re-encodes for step (d)
     _REENC.clear()
